@@ -88,11 +88,16 @@ def seed_for(base, pid, name, shard):
     return (int.from_bytes(h[:6], "big") | 1)
 
 
-def limit_memory():
+OOM_RE = re.compile(r"^fatal error: (?:runtime: )?(?:out of memory|cannot allocate memory)", re.M)
+
+
+def limit_memory(gb=None):
     """one runaway case must not take the machine (and the other shards) down: cap the address space of a test process;
-    the Go runtime then aborts with 'fatal error: runtime: out of memory', which the driver maps to INCONCLUSIVE."""
+    the Go runtime then aborts with 'fatal error: [runtime: ]out of memory', which the driver maps to INCONCLUSIVE -
+    except in runs marked VERIF_OOM_IS_VIOLATION (C13c: decoders of a few bytes of input; the property itself says
+    'never allocating without bound', and the process needs a few MB otherwise)."""
     import resource
-    gb = int(os.environ.get("VERIF_MEM_GB", "24"))
+    gb = int(gb or os.environ.get("VERIF_MEM_GB", "24"))
     try:
         resource.setrlimit(resource.RLIMIT_AS, (gb << 30, gb << 30))
     except Exception:
@@ -126,7 +131,7 @@ def run_procs(jobs, res, timeout):
         while pending and len(running) < maxpar:
             name, argv, env, cwd, req = pending.pop(0)
             logf = open(env["VERIF_LOG"], "w")
-            limit = None if env.get("VERIF_RACE_BUILD") else limit_memory  # the race runtime reserves terabytes of address space
+            limit = None if env.get("VERIF_RACE_BUILD") else (lambda gb=env.get("VERIF_MEM_GB"): limit_memory(gb))  # the race runtime reserves terabytes of address space
             p = subprocess.Popen(argv, cwd=cwd, env=env, stdout=logf, stderr=subprocess.STDOUT, preexec_fn=limit)
             running.append((name, p, logf, env, req))
         time.sleep(0.05)
@@ -161,11 +166,18 @@ def run_procs(jobs, res, timeout):
             fpr = " vs ".join("%s@%s" % f for f in frames[:1] + [x for x in frames[1:] if x != frames[0]][:1])
             res.violations.append((name.split("#")[0], env["VERIF_LOG"], "DATA RACE " + fpr + " (%d reports in this shard)" % txt.count("WARNING: DATA RACE")))
             viol = viol or ["race"]
-        fatal = re.search(r"^(fatal error: (?!runtime: out of memory|runtime: cannot allocate)[^\n]*)", txt, re.M)
+        fatal = re.search(r"^(fatal error: [^\n]*)", txt, re.M)
+        if fatal and OOM_RE.search(txt) and not env.get("VERIF_OOM_IS_VIOLATION"):
+            fatal = None
         if rc != 0 and not viol and fatal:
             # the Go runtime aborted the process inside the code under test (e.g. unlock of unlocked mutex,
             # concurrent map writes): the property 'never crashes' is violated; the log is the replay artefact
-            res.violations.append((name.split("#")[0], env["VERIF_LOG"], fatal.group(1)[:300]))
+            pend = env.get("VERIF_PENDING")
+            rp = env["VERIF_LOG"]
+            if pend and os.path.exists(pend):  # the input that was being processed when the runtime aborted
+                rp = pend.replace("pending-", "fatal-replay-")
+                os.replace(pend, rp)
+            res.violations.append((name.split("#")[0], rp, fatal.group(1)[:300]))
             viol = [fatal.group(1)]
         if rc != 0 and not viol:
             tail = txt[-3000:]
@@ -342,6 +354,7 @@ def check(pid, tier):
             env["VERIF_SHARD"] = "%s-%d-%d" % (r["test"], ri, k)
             env["VERIF_SEED_EFFECTIVE"] = str(seed_for(seed, pid, r["test"] + str(ri), k))
             env["VERIF_TIER"] = tier
+            env["VERIF_PENDING"] = os.path.join(outdir, "pending-%s-%d-%d.json" % (r["test"], ri, k))
             if r.get("race"):
                 env["VERIF_RACE_BUILD"] = "1"
             argv = [binary, "-test.run", "^%s$" % r["test"], "-test.v", "-test.timeout", "%ds" % timeout,
@@ -469,9 +482,14 @@ def replay(pid, path):
     env["VERIF_REPLAY"] = os.path.abspath(path)
     env["VERIF_NO_KNOWN"] = "1"
     p = subprocess.run([b, "-test.run", "^TestReplay$", "-test.v"], cwd=module_dir(mod), env=env, stdout=subprocess.PIPE,
-                       stderr=subprocess.STDOUT, text=True)
+                       stderr=subprocess.STDOUT, text=True, preexec_fn=lambda: limit_memory(CHECKS[pid].get("replay_mem_gb")))
     os.remove(b)
     m = VIOL_RE.search(p.stdout)
+    fatal = re.search(r"^(fatal error: [^\n]*)", p.stdout, re.M)
+    if not m and p.returncode != 0 and fatal and (not OOM_RE.search(p.stdout) or CHECKS[pid].get("replay_oom_is_violation")):
+        print("VIOLATION property=%s replay=%s" % (pid, path))
+        print("  detail: %s" % fatal.group(1)[:300])
+        return 1
     if m:
         print("VIOLATION property=%s replay=%s" % (pid, path))
         print("  detail: %s" % m.group(3).strip()[:800])
